@@ -77,13 +77,13 @@ let register () =
   Drv.register "c19.archive" (fun args -> match args with
     | [h] ->
         let rec go st b alloc acc =
-          let alloc = Z.add alloc (z_of_n (Archive.decode_archive_next_alloc st b)) in
-          match Archive.decode_archive_next st b with
+          let alloc = Z.add alloc (z_of_n (ArchiveLeaf.decode_archive_next_full_alloc st b)) in
+          match ArchiveLeaf.decode_archive_next_full st b with
           | Format.Ok ((None, _), _) -> answer alloc "end" acc
           | Format.Ok ((Some nd, st'), rest) -> go st' rest alloc (string_of_node nd :: acc)
           | Format.Err e -> answer alloc (status_of_err e) acc
           | Format.Panic p -> answer alloc (status_of_panic p) acc in
-        go Archive.astate0 (bytes_of_hex h) Z.zero []
+        go ArchiveLeaf.dstate0 (bytes_of_hex h) Z.zero []
     | _ -> "ERR args");
   Drv.register "c19.msgs" (fun args -> match args with
     | [h] ->
